@@ -15,6 +15,13 @@
 //!   wrongfmt <i> <cls> <code> <fmt> <n> <payload>            valid body under another body format
 //!   stream|cstream <i> <cls> <code> <id> <notify> <ec> <qfmt> <query> <n> <payload>   streaming writers
 //!   net <i> <server> <client> <kind> <route> <cls> <code> <plen> <n> <payload>        real servers and clients
+//!   hseq <i> <kind> <wrap> <cls> <code> <query> <k> {<hk> <fmt> <mis> <body>}*k   k requests through ONE handler
+//!                                   instance (bulk / borrowing route, bare or behind a middleware); hk = what the
+//!                                   user closure does: same | bytes | err | panics | panicstr | panicint
+//!   abld <i> <cls> <code> <mis> <wire> <query> <n> <payload>   aligned request behind arbitrary query bytes, served
+//!   capq <i> <client> <kind> <cls> <code> <path> <n> <payload>  like cap, the path given as UTF-8 bytes
+//!   capr <i> <client> <kind> <cls> <code> <cls2> <code2> <n2> <payload2>  the peer answers with an array of type 2
+//!   capt <i> <client>                                           the peer does not answer: the call times out
 //!   seq <i> <cls> <code> <s1> <s2> <qafter> <qlen> <cap> <p1> <p2>   two body setters in a row on one builder
 //!   cap <i> <client> <kind> <cls> <code> <plen> <n> <payload>    the raw request frame a client helper puts on the
 //!                                                                wire (capture peer), then served by the borrowing route
@@ -367,6 +374,9 @@ fn op_enc<T: Elem>(c: &mut Ctx, complex: bool, n: usize, payload: &[u8]) -> (Str
         body = m.body;
     }
     let k = if complex { "cenc" } else { "enc" };
+    if body != indep_body(if complex { "complex" } else { "regular" }, T::CLASS, T::BYTE_CODE, T::W, n, payload, 0) {
+        c.fail(&format!("numeric.{}.body_ne_spec", k), "the bulk body differs from header byte + SIZE + element bytes written from the BEVE spec".into());
+    }
     if let Some(g) = &generic {
         if *g != body {
             c.fail(&format!("numeric.{}.bulk_ne_generic", k), format!("bulk body {} differs from the serde body {}", hex(&body[..body.len().min(24)]), hex(&g[..g.len().min(24)])));
@@ -433,6 +443,18 @@ fn accepted_form_ok<T: Elem>(complex: bool, body: &[u8], n: usize) -> bool {
 
 fn op_dec<T: Elem>(c: &mut Ctx, complex: bool, fmt: u16, body: &[u8]) -> (String, bool) {
     let r = if complex { dec_complex::<T>(fmt, body) } else { dec_typed::<T>(fmt, body) };
+    {
+        // one Message decoded three times (after a failure too): the decoders keep no state
+        let m = msg_with(fmt, body);
+        let show = |m: &Message| -> String {
+            if complex { format!("{:?}", m.decode_complex_slice::<T>().map(|v| cbytes_of(&v)).map_err(|e| cls_of(&e))) } else { format!("{:?}", m.decode_typed_slice::<T>().map(|v| bytes_of(&v)).map_err(|e| cls_of(&e))) }
+        };
+        if let Ok((a, b2, c3)) = catch(|| (show(&m), show(&m), show(&m))) {
+            if a != b2 || b2 != c3 {
+                c.fail("numeric.dec.repeat_differs", "decoding the same message again gave another result".into());
+            }
+        }
+    }
     if let Ok(Ok((n, _))) = &r {
         if !accepted_form_ok::<T>(complex, body, *n) {
             c.fail("numeric.dec.reinterpreted", format!("a body opening {} that is neither an array of the element type nor the empty vector decoded to {} elements", hex(&body[..body.len().min(4)]), n));
@@ -476,6 +498,9 @@ fn op_aenc<T: Elem>(c: &mut Ctx, cls: u8, code: u8, qlen: usize, n: usize, paylo
     let off = 48 + qlen + body.len() - payload.len();
     if off % align != 0 {
         c.fail("numeric.aenc.payload_not_aligned_in_frame", format!("payload at frame offset {} (query {} bytes, align {})", off, qlen, align));
+    }
+    if body != indep_body("aligned", cls, code, T::W, n, payload, 48 + qlen) {
+        c.fail("numeric.aenc.body_ne_spec", format!("aligned body behind a {}-byte query differs from the spec layout", qlen));
     }
     if !body.ends_with(payload) {
         c.fail("numeric.aenc.payload_bytes", "aligned body does not end with the element bytes".into());
@@ -818,6 +843,54 @@ fn op_stream<T: Elem>(c: &mut Ctx, complex: bool, id: u64, notify: bool, ec: u32
     if streamed != buffered || written != buffered || wire != buffered {
         c.fail(&format!("numeric.{}.streaming_ne_buffered", k), format!("streamed {} bytes, buffered {} bytes; write_message equal: {}, into_wire_bytes equal: {}", streamed.len(), buffered.len(), written == buffered, wire == buffered));
     }
+    {
+        // user callbacks that fail: a body writer returning Err, a sink failing after some bytes — the
+        // writers must return the error (no panic) and what reached the sink is a prefix of the frame
+        struct FailAfter { out: Vec<u8>, left: usize }
+        impl std::io::Write for FailAfter {
+            fn write(&mut self, buf: &[u8]) -> std::io::Result<usize> {
+                if self.left == 0 {
+                    return Err(std::io::Error::new(std::io::ErrorKind::BrokenPipe, "sink closed"));
+                }
+                let n = buf.len().min(self.left);
+                self.out.extend_from_slice(&buf[..n]);
+                self.left -= n;
+                Ok(n)
+            }
+            fn flush(&mut self) -> std::io::Result<()> { Ok(()) }
+        }
+        for left in [0usize, 1, 47, 48, 48 + q.len(), 49 + q.len(), buffered.len().saturating_sub(1)] {
+            if left >= buffered.len() {
+                continue;
+            }
+            let mut sink = FailAfter { out: Vec::new(), left };
+            let r = catch(|| if complex { repe::write_message_complex_slice(&mut sink, h, q, &cvec_of::<T>(payload)) } else { repe::write_message_typed_slice(&mut sink, h, q, &vec_of::<T>(payload)) });
+            // (whether the writer reports the error is not the property's business; a panic or other bytes are)
+            if r.is_err() || !buffered.starts_with(&sink.out) {
+                c.fail(&format!("numeric.{}.failing_sink", k), format!("sink failing after {} bytes: result {}, bytes in the sink are a prefix of the frame: {}", left, match &r { Ok(Ok(())) => "Ok", Ok(Err(_)) => "Err", Err(_) => "PANIC" }, buffered.starts_with(&sink.out)));
+            }
+        }
+        let mut sink = Vec::new();
+        let r = catch(|| repe::write_message_streaming(&mut sink, h, q, 3, |_w: &mut Vec<u8>| Err::<(), std::io::Error>(std::io::Error::new(std::io::ErrorKind::Other, "producer failed"))));
+        if r.is_err() {
+            c.fail(&format!("numeric.{}.failing_body_writer", k), "a body writer returning Err made the streaming writer panic".into());
+        }
+    }
+    {
+        // two frames into ONE sink, one after the other: the concatenation of the two builder frames
+        let mut sink = Vec::new();
+        let ok = catch(|| {
+            for _ in 0..2 {
+                let r = if complex { repe::write_message_complex_slice(&mut sink, h, q, &cvec_of::<T>(payload)) } else { repe::write_message_typed_slice(&mut sink, h, q, &vec_of::<T>(payload)) };
+                r.expect("Vec sink");
+            }
+        });
+        let mut twice = buffered.clone();
+        twice.extend_from_slice(&buffered);
+        if ok.is_err() || sink != twice {
+            c.fail(&format!("numeric.{}.second_frame_differs", k), "two frames streamed into one sink are not the two builder frames".into());
+        }
+    }
     // the same writers into sinks that take only a few bytes per call (plain and gathering), and the
     // core `write_message_streaming` with the body written by the caller
     for max in short_limits(q.len()) {
@@ -954,6 +1027,9 @@ struct Net {
 
 /// A stand-in peer that records every request frame byte for byte and answers it: the request body
 /// comes back as the response body (an aligned request is answered with an empty array of its type).
+/// What the capture peer answers next instead of the echo (set by `capr`).
+static NEXT_RESPONSE: Mutex<Option<Vec<u8>>> = Mutex::new(None);
+
 fn start_capture() -> (String, std::sync::mpsc::Receiver<Vec<u8>>) {
     use std::io::{Read, Write};
     let listener = std::net::TcpListener::bind("127.0.0.1:0").unwrap();
@@ -983,9 +1059,15 @@ fn start_capture() -> (String, std::sync::mpsc::Receiver<Vec<u8>>) {
                     let mut frame = hdr.to_vec();
                     frame.extend_from_slice(&rest);
                     let body = &rest[q..];
-                    let resp_body: Vec<u8> = if body.first() == Some(&0x5C) && body.len() > 1 { vec![body[1], 0] } else { body.to_vec() };
+                    let forced = NEXT_RESPONSE.lock().unwrap().take();
+                    let resp_body: Vec<u8> = match forced {
+                        Some(b) => b,
+                        None if body.first() == Some(&0x5C) && body.len() > 1 => vec![body[1], 0],
+                        None => body.to_vec(),
+                    };
                     let resp = RawFrame::request(id, false, 1, &rest[..q], 1, &resp_body).to_vec();
-                    let notify = hdr[11] != 0;
+                    // a request for "/!noanswer" is recorded and never answered
+                    let notify = hdr[11] != 0 || rest[..q].starts_with(b"/!noanswer");
                     if tx.send(frame).is_err() {
                         return;
                     }
@@ -1156,10 +1238,341 @@ fn op_seq<T: Elem>(c: &mut Ctx, s1: &str, s2: &str, qafter: bool, qlen: usize, c
     if frame != fresh.to_vec() {
         c.fail(&format!("numeric.seq.{}_then_{}.frame_ne_fresh", s1, s2), format!("the frame ({} bytes) differs from the fresh builder's ({} bytes)", frame.len(), fresh.to_vec().len()));
     }
+    {
+        // a third setter on the same builder (the first kind again): still only the last one counts
+        let three = finish(apply_setter::<T>(apply_setter::<T>(apply_setter::<T>(start(), s1, p1, cap), s2, p2, cap), s1, p1, cap));
+        let fresh1 = if s1 == "bytes" {
+            finish(apply_setter::<T>(start().body_format_code(both.header.body_format), s1, p1, 0))
+        } else {
+            finish(apply_setter::<T>(start(), s1, p1, 0))
+        };
+        if three.to_vec() != fresh1.to_vec() {
+            c.fail(&format!("numeric.seq.{}_then_{}_then_{}.frame_ne_fresh", s1, s2, s1), "after three setters the frame is not the fresh builder's frame for the last one".into());
+        }
+    }
     if written != frame || wire != frame {
         c.fail(&format!("numeric.seq.{}_then_{}.routes_differ", s1, s2), format!("write_message equal: {}, into_wire_bytes equal: {}", written == frame, wire == frame));
     }
     (format!("{} {}", c.idx, hex(&frame)), true)
+}
+
+/// Independent writer of the three wire forms (BEVE spec: header byte, SIZE, padding), used as the
+/// expectation of the byte-level oracles instead of anything the crate under test computes.
+fn indep_size(n: usize) -> Vec<u8> {
+    let n = n as u64;
+    let (form, extra) = if n < 64 { (0u8, 0) } else if n < (1 << 14) { (1, 1) } else if n < (1 << 30) { (2, 3) } else { (3, 7) };
+    let mut v = vec![(((n & 63) as u8) << 2) | form];
+    v.extend_from_slice(&(n >> 6).to_le_bytes()[..extra]);
+    v
+}
+fn indep_body(form: &str, cls: u8, code: u8, w: usize, n: usize, payload: &[u8], base: usize) -> Vec<u8> {
+    let tag = (code << 5) | (cls << 3);
+    let mut v = Vec::new();
+    match form {
+        "regular" => v.push(tag | 4),
+        "complex" => {
+            v.push(0x1E);
+            v.push(tag | 1);
+        }
+        _ => {
+            v.push(0x5C);
+            v.push(tag | 4);
+        }
+    }
+    v.extend_from_slice(&indep_size(n));
+    if form == "aligned" {
+        let at = base + v.len() + 1;
+        let pad = (w - at % w) % w;
+        v.push(pad as u8);
+        v.extend(std::iter::repeat(0u8).take(pad));
+    }
+    v.extend_from_slice(payload);
+    v
+}
+
+/// Independent reading of a regular typed array of (cls, code): offset of the data and element count.
+fn regular_layout(body: &[u8], cls: u8, code: u8, w: usize) -> Option<(usize, usize)> {
+    if body.first() != Some(&((code << 5) | (cls << 3) | 4)) {
+        return None;
+    }
+    let b0 = *body.get(1)?;
+    let extra = [0usize, 1, 3, 7][(b0 & 3) as usize];
+    if body.len() < 2 + extra {
+        return None;
+    }
+    let mut n: u64 = (b0 >> 2) as u64;
+    for i in 0..extra {
+        n |= (body[2 + i] as u64) << (6 + 8 * i);
+    }
+    let data = 2 + extra;
+    let bytes = usize::try_from(n).ok()?.checked_mul(w)?;
+    if body.len() - data < bytes {
+        return None;
+    }
+    Some((data, n as usize))
+}
+
+struct HState {
+    calls: u32,
+    mw: u32,
+    ptr: usize,
+    n: usize,
+    payload: Vec<u8>,
+    mode: String,
+}
+
+/// `k` requests, one after the other, through ONE handler instance of a bulk route (bare or behind a
+/// pass-through middleware).  The user closure echoes, answers bytes (another result type), returns
+/// `Err`, or panics (String / &str / non-string payload).  Every step is judged on its own from the raw
+/// bytes: a later request behaves as on a fresh route whatever happened before.
+fn op_hseq<T: Elem>(c: &mut Ctx, kind: &str, wrap: bool, cls: u8, code: u8, q: &[u8], steps: &[(String, u16, usize, Vec<u8>)]) -> (String, bool) {
+    let st = Arc::new(Mutex::new(HState { calls: 0, mw: 0, ptr: 0, n: 0, payload: vec![], mode: "same".into() }));
+    let mut router = Router::new();
+    if wrap {
+        let s0 = st.clone();
+        router = router.with_middleware(move |req: &Message, next: repe::server::Next| {
+            s0.lock().unwrap().mw += 1;
+            next.run(req)
+        });
+    }
+    fn act<T: Elem>(st: &Arc<Mutex<HState>>, xs: &[T]) -> Result<(), (repe::ErrorCode, String)> {
+        let mode = {
+            let mut g = st.lock().unwrap();
+            g.calls += 1;
+            g.ptr = xs.as_ptr() as usize;
+            g.n = xs.len();
+            g.payload = bytes_of(xs);
+            g.mode.clone()
+        };
+        match mode.as_str() {
+            "err" => Err((repe::ErrorCode::ApplicationErrorBase, "refused by the handler".to_string())),
+            "panics" => panic!("{}", String::from("handler panic (String)")),
+            "panicstr" => panic!("handler panic (&str)"),
+            "panicint" => std::panic::panic_any(7u32),
+            "slow" => {
+                std::thread::sleep(std::time::Duration::from_millis(12));
+                Ok(())
+            }
+            _ => Ok(()),
+        }
+    }
+    let (s1, s2, s3, s4) = (st.clone(), st.clone(), st.clone(), st.clone());
+    router = if kind == "ref" {
+        router
+            .with_typed_slice_ref::<T, T, _>("/h", move |xs: &[T]| act(&s1, xs).map(|_| xs.to_vec()))
+            .with_typed_slice_ref::<T, u8, _>("/hb", move |xs: &[T]| act(&s2, xs).map(|_| bytes_of(xs)))
+    } else {
+        router
+            .with_typed_slice::<T, T, _>("/h", move |xs: Vec<T>| act(&s3, &xs).map(|_| xs))
+            .with_typed_slice::<T, u8, _>("/hb", move |xs: Vec<T>| act(&s4, &xs).map(|_| bytes_of(&xs)))
+    };
+    let h = router.get("/h").expect("route");
+    let hb = router.get("/hb").expect("route");
+    let align = std::mem::align_of::<T>();
+    let mut obs = Vec::new();
+    let mut any = false;
+    for (i, (hk, fmt, mis, body)) in steps.iter().enumerate() {
+        {
+            let mut g = st.lock().unwrap();
+            g.calls = 0;
+            g.mw = 0;
+            g.mode = hk.clone();
+        }
+        let frame = RawFrame::request(i as u64 + 1, false, 1, q, *fmt, body).to_vec();
+        let placed = Placed::new(&frame, *mis);
+        let view = MessageView::from_slice(placed.bytes()).expect("independent frame parses");
+        let handler = if hk == "bytes" { &hb } else { &h };
+        let r = catch(|| handler.handle_view(&view, &CallContext::detached("/h")));
+        let g = st.lock().unwrap();
+        let (calls, ptr, n, payload, mw) = (g.calls, g.ptr, g.n, g.payload.clone(), g.mw);
+        drop(g);
+        let tag = format!("numeric.hseq.{}{}", kind, if wrap { ".mw" } else { "" });
+        if wrap && mw != 1 && matches!(r, Ok(_)) {
+            c.fail(&format!("{}.middleware_not_run", tag), format!("step {}: the middleware ran {} times", i, mw));
+        }
+        // ---- what the raw bytes say must happen
+        let data_at = 48 + q.len();
+        let expect: Option<(usize, usize, bool)> = if *fmt != 1 {
+            None
+        } else if kind == "ref" && body.first() == Some(&0x5C) {
+            aligned_layout(body, cls, code, T::W).map(|(d, k)| (d, k, (placed.bytes().as_ptr() as usize + data_at + d) % align == 0))
+        } else if body[..] == [0x05, 0x00] {
+            Some((2, 0, false))
+        } else {
+            regular_layout(body, cls, code, T::W).map(|(d, k)| (d, k, false))
+        };
+        let flag = if wrap || kind != "ref" { "-" } else if placed.contains(ptr) { "b" } else { "c" };
+        let s = if calls == 0 {
+            match &r {
+                Err(_) => {
+                    c.fail(&format!("{}.panic", tag), format!("step {}: the route panicked before the handler ran", i));
+                    "PANIC".to_string()
+                }
+                Ok(Err(e)) => format!("err {}", cls_of(e)),
+                Ok(Ok(resp)) => format!("reject {}", resp.header.ec),
+            }
+        } else {
+            any = true;
+            match &r {
+                Err(_) => format!("called {} panic", flag),
+                Ok(Err(e)) => format!("called {} herr {}", flag, cls_of(e)),
+                Ok(Ok(resp)) if resp.header.ec != 0 => format!("called {} err {}", flag, resp.header.ec),
+                Ok(Ok(resp)) => format!("called {} {}", flag, hex(&resp.body)),
+            }
+        };
+        match expect {
+            None => {
+                if calls != 0 {
+                    c.fail(&format!("{}.served_what_must_be_rejected", tag), format!("step {}: body format {}, body opening {} reached the handler with {} elements", i, fmt, hex(&body[..body.len().min(6)]), n));
+                }
+                if *fmt != 1 && !matches!(&r, Ok(Ok(resp)) if resp.header.ec == 4) {
+                    c.fail(&format!("{}.wrong_format_answer", tag), format!("step {}: body format {} not answered InvalidBody", i, fmt));
+                }
+            }
+            Some((d, k, aligned)) => {
+                if calls != 1 {
+                    c.fail(&format!("{}.not_served", tag), format!("step {} (after {:?}): a well-formed body of {} elements was not handed to the handler: {}", i, steps[..i].iter().map(|s| s.0.as_str()).collect::<Vec<_>>(), k, &s[..s.len().min(60)]));
+                } else {
+                    if n != k || payload[..] != body[d..d + k * T::W] {
+                        c.fail(&format!("{}.elements_differ", tag), format!("step {} (after {:?}): the handler saw {} elements, the body holds {}; bits equal: {}", i, steps[..i].iter().map(|s| s.0.as_str()).collect::<Vec<_>>(), n, k, n == k && payload[..] == body[d..d + k * T::W]));
+                    }
+                    if flag != "-" && (flag == "b") != aligned {
+                        c.fail(&format!("{}.{}", tag, if aligned { "aligned_but_copied" } else { "borrowed_unaligned" }), format!("step {}: payload aligned={}, borrowed={}", i, aligned, flag == "b"));
+                    }
+                    let want: Option<Vec<u8>> = match hk.as_str() {
+                        "same" | "slow" => Some(indep_body("regular", cls, code, T::W, k, &body[d..d + k * T::W], 0)),
+                        "bytes" => Some(indep_body("regular", 2, 0, 1, k * T::W, &body[d..d + k * T::W], 0)),
+                        _ => None,
+                    };
+                    match (&want, &r) {
+                        (Some(wb), Ok(Ok(resp))) if resp.header.ec == 0 && resp.header.body_format == 1 && resp.body == *wb && resp.header.id == i as u64 + 1 && resp.query.is_empty() => {}
+                        (Some(_), _) => c.fail(&format!("{}.response_differs", tag), format!("step {} ({}): the response is not the typed array of the handler's result", i, hk)),
+                        (None, Ok(Ok(resp))) if hk == "err" && resp.header.ec == 4096 => {}
+                        (None, Err(_)) if hk.starts_with("panic") => {} // the property is silent about a panicking handler
+                        (None, _) => c.fail(&format!("{}.handler_error_lost", tag), format!("step {} ({}): the handler's error did not come back", i, hk)),
+                    }
+                }
+            }
+        }
+        obs.push(s);
+    }
+    (format!("{} {}", c.idx, obs.join(" | ")), any)
+}
+
+/// An aligned request behind arbitrary query bytes (non-UTF-8, long), built by the builder and served
+/// by the borrowing route with the frame at base misalignment `mis`.
+#[allow(clippy::too_many_arguments)]
+fn op_abld<T: Elem>(c: &mut Ctx, cls: u8, code: u8, mis: usize, wire: u8, q: &[u8], n: usize, payload: &[u8]) -> (String, bool) {
+    let xs: Vec<T> = vec_of(payload);
+    let m = Message::builder().id(3).query_bytes(q.to_vec()).body_aligned_typed_slice(&xs).build();
+    let body = m.body.clone();
+    let align = std::mem::align_of::<T>();
+    let want = indep_body("aligned", cls, code, T::W, n, payload, 48 + q.len());
+    if body != want {
+        c.fail("numeric.abld.body_ne_spec", format!("aligned body behind a {}-byte query differs from the spec layout ({} vs {} bytes)", q.len(), body.len(), want.len()));
+    }
+    let off = 48 + q.len() + body.len() - payload.len().min(body.len());
+    if off % align != 0 {
+        c.fail("numeric.abld.payload_not_aligned_in_frame", format!("payload at frame offset {} (query {} bytes, align {})", off, q.len(), align));
+    }
+    if beve::aligned_typed_slice_size(&xs, 48 + q.len()) != body.len() {
+        c.fail("numeric.abld.size_closed_form", "aligned_typed_slice_size differs from the bytes written".into());
+    }
+    let frame = if wire == 1 { m.clone().into_wire_bytes() } else { m.to_vec() };
+    if frame != RawFrame::request(3, false, 0, q, 1, &want).to_vec() {
+        c.fail("numeric.abld.frame_ne_spec", "the frame differs from header + query + spec-layout body".into());
+    }
+    let placed = Placed::new(&frame, mis);
+    let (h, seen) = ref_router::<T>("/h");
+    let flag = match MessageView::from_slice(placed.bytes()) {
+        Ok(view) => match run_handler(&h, &seen, "/h", Some(&view), None) {
+            HOut::Called { seen: (k, p), ptr, resp_body } => {
+                let borrowed = placed.contains(ptr);
+                if k != n || p != payload {
+                    c.fail("numeric.abld.elements_differ", format!("handler saw {} elements, bits equal: {}", k, p == payload));
+                }
+                if borrowed != (mis % align == 0) {
+                    c.fail(if borrowed { "numeric.abld.borrowed_unaligned" } else { "numeric.abld.aligned_buffer_but_copied" }, format!("query {} bytes, base misalignment {}, align {}: borrowed={}", q.len(), mis, align, borrowed));
+                }
+                if resp_body != indep_body("regular", cls, code, T::W, n, payload, 0) {
+                    c.fail("numeric.abld.response_differs", "response is not the typed array of the elements".into());
+                }
+                if borrowed { "borrowed" } else { "copied" }
+            }
+            other => {
+                c.fail("numeric.abld.not_served", format!("aligned request not served: {}", &show_hout(&other, None)[..show_hout(&other, None).len().min(60)]));
+                "unserved"
+            }
+        },
+        Err(_) => {
+            c.fail("numeric.abld.frame_unparsable", "built frame does not parse".into());
+            "unparsable"
+        }
+    };
+    (format!("{} {} off {} {}", c.idx, hex(&body), off, flag), true)
+}
+
+/// The peer answers a bulk / aligned call with a regular typed array of another (or the same) element
+/// type: the client must hand back exactly those elements, or an error — never a reinterpretation.
+fn op_capr<T: Elem>(c: &mut Ctx, client: &str, kind: &str, same: bool, resp: Vec<u8>, n2: usize, p2: &[u8]) -> (String, bool) {
+    let net = c.net.expect("net started");
+    let xs: Vec<T> = vec_of(&vec![0x11u8; 2 * T::W]);
+    let t = std::time::Duration::from_secs(30);
+    let rx = net.captured.lock().unwrap();
+    while rx.try_recv().is_ok() {}
+    *NEXT_RESPONSE.lock().unwrap() = Some(resp);
+    let r: Result<Vec<T>, repe::RepeError> = match (client, kind) {
+        ("sync", "bulk") => net.cap_sync.call_typed_slice_with_timeout("/r", &xs, t),
+        ("sync", "aligned") => net.cap_sync.call_typed_slice_aligned_with_timeout("/r", &xs, t),
+        ("async", "bulk") => net.rt.block_on(net.cap_async.call_typed_slice_with_timeout("/r", &xs, t)),
+        ("async", "aligned") => net.rt.block_on(net.cap_async.call_typed_slice_aligned_with_timeout("/r", &xs, t)),
+        ("syncp", "bulk") => net.cap_sync.call_typed_slice("/r", &xs),
+        ("syncp", "aligned") => net.cap_sync.call_typed_slice_aligned("/r", &xs),
+        ("asyncp", "bulk") => net.rt.block_on(net.cap_async.call_typed_slice("/r", &xs)),
+        ("asyncp", "aligned") => net.rt.block_on(net.cap_async.call_typed_slice_aligned("/r", &xs)),
+        _ => panic!("unknown client kind"),
+    };
+    let _ = rx.recv_timeout(std::time::Duration::from_secs(20));
+    drop(rx);
+    *NEXT_RESPONSE.lock().unwrap() = None;
+    let s = match &r {
+        Ok(v) => {
+            let p = bytes_of(v);
+            if !same {
+                c.fail(&format!("numeric.capr.{}.{}.wrong_type_response_accepted", client, kind), format!("a response array of another element type ({} elements) decoded to {} elements", n2, v.len()));
+            } else if v.len() != n2 || p != p2 {
+                c.fail(&format!("numeric.capr.{}.{}.elements_differ", client, kind), "the response elements differ".into());
+            }
+            format!("ok {}", show_elems(v.len(), &p))
+        }
+        Err(e) => {
+            if same {
+                c.fail(&format!("numeric.capr.{}.{}.response_rejected", client, kind), format!("a well-formed response of the element type was rejected: {}", cls_of(e)));
+            }
+            format!("err {}", cls_of(e))
+        }
+    };
+    (format!("{} {}", c.idx, s), r.is_ok())
+}
+
+/// The peer does not answer: the call must fail (it times out) — and the client stays usable, which the
+/// `cap` ops that follow on the same client check.
+fn op_capt(c: &mut Ctx, client: &str) -> (String, bool) {
+    let net = c.net.expect("net started");
+    let t = std::time::Duration::from_millis(120);
+    let xs = [1.5f64, 2.5];
+    let rx = net.captured.lock().unwrap();
+    while rx.try_recv().is_ok() {}
+    let r: Result<Vec<f64>, repe::RepeError> = match client {
+        "sync" => net.cap_sync.call_typed_slice_aligned_with_timeout("/!noanswer", &xs, t),
+        _ => net.rt.block_on(net.cap_async.call_typed_slice_aligned_with_timeout("/!noanswer", &xs, t)),
+    };
+    let _ = rx.recv_timeout(std::time::Duration::from_secs(20));
+    drop(rx);
+    if r.is_ok() {
+        c.fail(&format!("numeric.capt.{}.answered", client), "a call the peer never answered returned Ok".into());
+    }
+    (format!("{} {}", c.idx, if r.is_ok() { "ok" } else { "err" }), false)
 }
 
 fn cap_path(plen: usize) -> String {
@@ -1172,10 +1585,10 @@ fn cap_path(plen: usize) -> String {
 /// (3) served by the real borrowing route from a buffer at base misalignments 0..7 it is borrowed
 /// exactly at the aligned bases (aligned form) / always copied (regular, generic form).
 #[allow(clippy::too_many_arguments)]
-fn op_cap<T: Elem>(c: &mut Ctx, client: &str, kind: &str, cls: u8, code: u8, plen: usize, n: usize, payload: &[u8]) -> (String, bool) {
+fn op_cap<T: Elem>(c: &mut Ctx, client: &str, kind: &str, cls: u8, code: u8, path: String, n: usize, payload: &[u8]) -> (String, bool) {
     let net = c.net.expect("net started");
     let xs: Vec<T> = vec_of(payload);
-    let path = cap_path(plen);
+    let plen = path.len();
     let t = std::time::Duration::from_secs(30);
     let rx = net.captured.lock().unwrap();
     while rx.try_recv().is_ok() {}
@@ -1225,6 +1638,12 @@ fn op_cap<T: Elem>(c: &mut Ctx, client: &str, kind: &str, cls: u8, code: u8, ple
         let bf = built.to_vec();
         let at = frame.iter().zip(bf.iter()).position(|(a, b)| a != b).unwrap_or(frame.len().min(bf.len()));
         c.fail(&format!("numeric.cap.{}.frame_ne_builder", tag), format!("the frame on the wire ({} bytes) differs from the MessageBuilder frame ({} bytes) at byte {} (query {} bytes)", frame.len(), bf.len(), at, plen));
+    }
+    if kind != "serde" {
+        let spec_body = indep_body(if kind == "aligned" { "aligned" } else { "regular" }, cls, code, T::W, n, payload, 48 + plen);
+        if frame != RawFrame::request(id, false, 1, path.as_bytes(), 1, &spec_body).to_vec() {
+            c.fail(&format!("numeric.cap.{}.frame_ne_spec", tag), format!("the frame on the wire differs from header + path + spec-layout body (path {} bytes)", plen));
+        }
     }
     let align = std::mem::align_of::<T>();
     let body = &frame[(48 + plen).min(frame.len())..];
@@ -1284,7 +1703,7 @@ fn exec(out: &mut Out, line: &str, net: Option<&Net>) {
     let w = words(line);
     let idx = w.get(1).copied().unwrap_or("?");
     // panics are caught per op; only the socket ops (which can hang the process) leave a marker file
-    if matches!(w[0], "net" | "cap") {
+    if matches!(w[0], "net" | "cap" | "capq" | "capr" | "capt") {
         out.begin(line);
     }
     let mut c = Ctx { out: &mut *out, line, idx, net };
@@ -1377,7 +1796,38 @@ fn exec(out: &mut Out, line: &str, net: Option<&Net>) {
         "cap" => {
             let (cls, code) = ty(w[4], w[5]);
             let p = unhex(w[8]).unwrap();
-            dispatch!(cls, code, op_cap(&mut c, w[2], w[3], cls, code, u(w[6]), u(w[7]), &p))
+            dispatch!(cls, code, op_cap(&mut c, w[2], w[3], cls, code, cap_path(u(w[6])), u(w[7]), &p))
+        }
+        "capq" => {
+            let (cls, code) = ty(w[4], w[5]);
+            let p = unhex(w[8]).unwrap();
+            let path = String::from_utf8(unhex(w[6]).unwrap()).expect("capq path is UTF-8");
+            dispatch!(cls, code, op_cap(&mut c, w[2], w[3], cls, code, path, u(w[7]), &p))
+        }
+        "capr" => {
+            let (cls, code) = ty(w[4], w[5]);
+            let (c2, k2) = ty(w[6], w[7]);
+            let p2 = unhex(w[9]).unwrap();
+            let resp = dispatch!(c2, k2, encode_as("regular", &p2));
+            dispatch!(cls, code, op_capr(&mut c, w[2], w[3], (cls, code) == (c2, k2), resp, u(w[8]), &p2))
+        }
+        "capt" => op_capt(&mut c, w[2]),
+        "abld" => {
+            let (cls, code) = ty(w[2], w[3]);
+            let q = unhex(w[6]).unwrap();
+            let p = unhex(w[8]).unwrap();
+            dispatch!(cls, code, op_abld(&mut c, cls, code, u(w[4]), u(w[5]) as u8, &q, u(w[7]), &p))
+        }
+        "hseq" => {
+            let (cls, code) = ty(w[4], w[5]);
+            let q = unhex(w[6]).unwrap();
+            let k = u(w[7]);
+            let mut steps = Vec::new();
+            for i in 0..k {
+                let o = 8 + 4 * i;
+                steps.push((w[o].to_string(), u(w[o + 1]) as u16, u(w[o + 2]), unhex(w[o + 3]).unwrap()));
+            }
+            dispatch!(cls, code, op_hseq(&mut c, w[2], w[3] == "1", cls, code, &q, &steps))
         }
         "net" => {
             let (cls, code) = ty(w[6], w[7]);
@@ -1829,7 +2279,7 @@ fn generate(seed: u64, thorough: bool) -> Vec<String> {
             let qlen = if round == 0 { 0 } else { g.r.below(65) as usize };
             let q = g.r.bytes(qlen);
             let ec = *g.r.pick(&[0u32, 0, 4, 5, 4096]);
-            push!(g, if complex { "cstream" } else { "stream" }, "{} {} {} {} {} {} {} {} {}", cls, code, g.r.boundary(64), g.r.below(2), ec, *g.r.pick(&[0u16, 1, 1, 7]), hex(&q), n, hex(&p));
+            push!(g, if complex { "cstream" } else { "stream" }, "{} {} {} {} {} {} {} {} {}", cls, code, g.r.boundary(64), g.r.below(2), ec, *g.r.pick(&[0u16, 1, 1, 7, 65535]), hex(&q), n, hex(&p));
         }
     }
     if thorough {
@@ -1884,6 +2334,15 @@ fn generate(seed: u64, thorough: bool) -> Vec<String> {
         let plen = *g.r.pick(&PLENS[1..]);
         push!(g, "net", "{} {} {} {} {} {} {} {} {}", server, client, kind, route, cls, code, plen, n, hex(&p));
     }
+    // large vectors (> 64 KiB, > 1 MiB) from the bulk and serde helpers to every route
+    for route in ["slice", "ref", "typed"] {
+        for kind in ["bulk", "serde"] {
+            let (cls, code, w) = *g.r.pick(&[(0u8, 3u8, 8usize), (2, 0, 1), (1, 4, 16)]);
+            let n = if thorough && kind == "bulk" { (1 << 20) / w + 3 } else { (1 << 16) / w + 1 + g.r.below(100) as usize };
+            let p = gen_payload(&mut g.r, cls, code, w, n, 1);
+            push!(g, "net", "{} {} {} {} {} {} {} {} {}", g.r.below(2), *g.r.pick(&["sync", "async"]), kind, route, cls, code, *g.r.pick(&PLENS[1..]), n, hex(&p));
+        }
+    }
     // the WebSocket client's serde helper against the three routes on the WebSocket server
     for route in ["slice", "ref", "typed"] {
         for round in 0..(if thorough { 20 } else { 4 }) {
@@ -1921,10 +2380,109 @@ fn generate(seed: u64, thorough: bool) -> Vec<String> {
         }
     }
 
+    // ---- 6c. sequences through ONE route handler; user closure echoing / other result type / Err / panics ----
+    let queries = |r: &mut Rng| -> Vec<u8> {
+        match r.below(7) {
+            0 => vec![],
+            1 => b"/".to_vec(),
+            2 => "/\u{e9}\u{65e5}\u{672c}\u{1f600}".as_bytes().to_vec(),
+            3 => { let k = 1 + r.below(16) as usize; r.bytes(k) } // not UTF-8
+            4 => { let k = *r.pick(&[63usize, 64, 65, 255, 256, 300]); r.bytes(k) }
+            _ => { let k = r.below(40) as usize; path_of(k).into_bytes() }
+        }
+    };
+    for round in 0..(if thorough { 160 } else { 36 }) {
+        let (cls, code, w) = TYPES[round % 14];
+        let kind = if round % 3 == 0 { "slice" } else { "ref" };
+        let wrap = round % 5 == 4;
+        let q = queries(&mut g.r);
+        let k = g.r.range(3, 6) as usize;
+        let mut line = format!("{} {} {} {} {} {}", kind, wrap as u8, cls, code, hex(&q), k);
+        for step in 0..k {
+            let big = round % 9 == 8 && step == 1;
+            let n = if big { 66000 / w + 9 } else { g.r.below(12) as usize };
+            let p = gen_payload(&mut g.r, cls, code, w, n, 1);
+            let (c2, k2, w2) = TYPES[(round + 1 + step) % 14];
+            let body = match g.r.below(if kind == "ref" { 9 } else { 6 }) {
+                0 | 1 => real_typed_body(cls, code, &p),
+                2 => dispatch!(cls, code, real_generic(false, &p[..0])),
+                3 => real_typed_body(c2, k2, &gen_payload(&mut g.r, c2, k2, w2, 2, 1)),
+                4 => { let b = real_typed_body(cls, code, &p); corrupt(&mut g.r, &b) }
+                5 => real_typed_body(cls, code, &p),
+                6 => dispatch!(cls, code, real_aligned(q.len() + 1 + g.r.below(7) as usize, &p)),
+                _ => dispatch!(cls, code, real_aligned(q.len(), &p)),
+            };
+            let fmt = if g.r.chance(1, 9) { *g.r.pick(&[0u16, 2, 3, 65535]) } else { 1 };
+            let hk = *g.r.pick(&["same", "same", "slow", "bytes", "err", "err", "panics", "panicstr", "panicint"]);
+            let mis = if g.r.chance(1, 2) { 0 } else { g.r.below(16) };
+            line.push_str(&format!(" {} {} {} {}", hk, fmt, mis, hex(&body)));
+        }
+        g.push("hseq", line);
+    }
+    // bodies just over 64 KiB and over 1 MiB on every route kind, bare and behind a middleware (view path)
+    for (i, (cls, code, w)) in [(2u8, 0u8, 1usize), (0, 3, 8), (1, 4, 16), (0, 1, 2)].into_iter().enumerate() {
+        for kind in ["slice", "ref"] {
+            for wrap in [0, 1] {
+                let n = if i == 0 && thorough { (1 << 20) + 5 } else { (1 << 16) / w + 1 + g.r.below(50) as usize };
+                let p = gen_payload(&mut g.r, cls, code, w, n, 1);
+                let q = path_of(g.r.below(20) as usize).into_bytes();
+                let regular = real_typed_body(cls, code, &p);
+                let mut line = format!("{} {} {} {} {} 2 same 1 {} {}", kind, wrap, cls, code, hex(&q), g.r.below(16), hex(&regular));
+                let second = if kind == "ref" { dispatch!(cls, code, real_aligned(q.len(), &p)) } else { regular.clone() };
+                line.push_str(&format!(" bytes 1 0 {}", hex(&second)));
+                g.push("hseq", line);
+            }
+        }
+    }
+    // ---- 6d. the aligned builder behind arbitrary query bytes: not UTF-8, long ------------------------------
+    let mut qlens: Vec<usize> = vec![0, 1, 63, 64, 65, 66, 71, 100, 127, 128, 129, 255, 256, 257, 1000, 4097];
+    if thorough {
+        qlens.extend_from_slice(&[65535, 65536, 100_001]);
+    }
+    for (i, ql) in qlens.iter().enumerate() {
+        for (cls, code, w) in [TYPES[i % 14], TYPES[(i * 5 + 3) % 14], (0, 3, 8)] {
+            let n = g.r.below(70) as usize;
+            let p = gen_payload(&mut g.r, cls, code, w, n, 1);
+            let q = g.r.bytes(*ql);
+            for mis in [0usize, g.r.range(1, 15) as usize] {
+                push!(g, "abld", "{} {} {} {} {} {} {}", cls, code, mis, g.r.below(2), hex(&q), n, hex(&p));
+            }
+        }
+    }
+
     // ---- 7. the frames the client helpers really write (capture peer) ------------------------------------
     // aligned calls: every element type x every path length 0..16 (all residues mod 8 and 16) x both
     // clients; longer paths and the bulk / serde helpers sampled
+    // a call the peer never answers times out; the cap ops below go on with the same two clients
+    push!(g, "capt", "sync");
+    push!(g, "capt", "async");
+    // paths that are not ASCII (byte length ≠ character count) and long ones
+    for client in ["sync", "syncp", "async", "asyncp"] {
+        for path in ["/\u{e9}", "/\u{65e5}\u{672c}\u{8a9e}/\u{30c7}\u{30fc}\u{30bf}", "/\u{1f600}x", "/a\u{300}\u{301}bc", &format!("/{}", "\u{fc}".repeat(40)), &format!("/{}", "long".repeat(300))] {
+            let (cls, code, w) = *g.r.pick(&TYPES);
+            let n = g.r.below(70) as usize;
+            let p = gen_payload(&mut g.r, cls, code, w, n, 1);
+            push!(g, "capq", "{} aligned {} {} {} {} {}", client, cls, code, hex(path.as_bytes()), n, hex(&p));
+            if g.r.chance(1, 3) {
+                push!(g, "capq", "{} {} {} {} {} {} {}", client, if g.r.chance(1, 2) { "bulk" } else { "serde" }, cls, code, hex(path.as_bytes()), n, hex(&p));
+            }
+        }
+    }
+    // the peer answers with an array of another (or the same) element type, empty and non-empty
+    for round in 0..(if thorough { 400 } else { 60 }) {
+        let (cls, code, _) = TYPES[round % 14];
+        let (c2, k2, w2) = if round % 4 == 0 { TYPES[round % 14] } else { *g.r.pick(&TYPES) };
+        let n2 = if round % 2 == 0 { 0 } else { g.r.range(1, 9) as usize };
+        let p2 = gen_payload(&mut g.r, c2, k2, w2, n2, 1);
+        let client = *g.r.pick(&["sync", "syncp", "async", "asyncp"]);
+        let kind = *g.r.pick(&["bulk", "aligned"]);
+        push!(g, "capr", "{} {} {} {} {} {} {} {}", client, kind, cls, code, c2, k2, n2, hex(&p2));
+    }
     for client in ["sync", "async"] {
+        if client == "async" {
+            push!(g, "capt", "sync");
+            push!(g, "capt", "async");
+        }
         for (cls, code, w) in TYPES {
             let mut plens: Vec<usize> = (0..=16).collect();
             for _ in 0..(if thorough { 12 } else { 2 }) {
@@ -1956,14 +2514,14 @@ fn main() {
     let args = Args::parse();
     quiet_panics();
     let mut out = Out::new(&args.out);
-    out.rule = "element types bf16,f16,f32,f64,i8..i64,u8..u64 as raw little-endian blocks (NaN payloads quiet/signalling, ±inf, ±0, subnormals, min/max, random bits); vectors of every length 0..70 (thorough: 0..4096) plus 127..4096 boundaries, 2^14±1 and (thorough) one 2^20; complex pairs; three-way comparison bulk body / serde body / model, both decoders on both bodies incl. the empty vector; aligned form behind every query length 0..64 for every type and SIZE width, the frame copied to every base misalignment 0..7 of a Vec<u64> and served by the with_typed_slice_ref handler (pointer-range test: borrowed iff payload address aligned); regular / generic / aligned-for-another-offset / corrupted bodies and every first byte through both bulk routes (view and owned); every ordered pair of distinct element types in regular, aligned and complex form; wrong body formats; streaming writers (typed, complex and write_message_streaming itself; Vec sink and write-only / gathering sinks taking 1..1000 bytes per call, limits around the header end and the query end, every query length 0..64) vs buffered builders; real Server and AsyncServer with bulk, aligned and serde clients (blocking and async); two body setters in a row on one builder for every ordered pair of setters (bytes with spare capacity, utf8, json, beve, typed, complex, aligned; query before / after): the last setter wins; the raw request frame every client helper writes, captured by a stand-in peer for every element type and path length 0..16 (+ longer), compared with the MessageBuilder frame and served by the borrowing route at base misalignments 0..7. Distinct by op line; non-trivial = the decoder / route / call accepted and returned elements (encoders: non-empty vector)".into();
+    out.rule = "element types bf16,f16,f32,f64,i8..i64,u8..u64 as raw little-endian blocks (NaN payloads quiet/signalling, ±inf, ±0, subnormals, min/max, random bits); vectors of every length 0..70 (thorough: 0..4096) plus 127..4096 boundaries, 2^14±1 and (thorough) one 2^20; complex pairs; three-way comparison bulk body / serde body / model, both decoders on both bodies incl. the empty vector; aligned form behind every query length 0..64 for every type and SIZE width, the frame copied to every base misalignment 0..7 of a Vec<u64> and served by the with_typed_slice_ref handler (pointer-range test: borrowed iff payload address aligned); regular / generic / aligned-for-another-offset / corrupted bodies and every first byte through both bulk routes (view and owned); every ordered pair of distinct element types in regular, aligned and complex form; wrong body formats; streaming writers (typed, complex and write_message_streaming itself; Vec sink and write-only / gathering sinks taking 1..1000 bytes per call, limits around the header end and the query end, every query length 0..64) vs buffered builders; real Server and AsyncServer with bulk, aligned and serde clients (blocking and async); two body setters in a row on one builder for every ordered pair of setters (bytes with spare capacity, utf8, json, beve, typed, complex, aligned; query before / after): the last setter wins; 3..5 requests through one route handler instance (bare / behind a middleware; closure echoing, answering another element type, returning Err, panicking with String / &str / non-string payloads; bodies > 64 KiB; arbitrary query bytes), each step judged from the raw bytes by an independent layout reader; aligned builder behind non-UTF-8 and long (≤ 100 k) queries; client calls answered with arrays of another element type, calls that time out followed by further calls on the same client, non-ASCII and long paths; the raw request frame every client helper writes, captured by a stand-in peer for every element type and path length 0..16 (+ longer), compared with the MessageBuilder frame and served by the borrowing route at base misalignments 0..7. Distinct by op line; non-trivial = the decoder / route / call accepted and returned elements (encoders: non-empty vector)".into();
     let ops = match args.replay_ops() {
         Some(o) => o,
         // `--release-shape` (the optimised-build run of the thorough tier): the quick-sized mix, other seed
         None if args.has("--release-shape") => generate(args.seed.wrapping_add(0x5EED), false),
         None => generate(args.seed, args.thorough()),
     };
-    let need_net = ops.iter().any(|l| l.starts_with("net ") || l.starts_with("cap "));
+    let need_net = ops.iter().any(|l| l.starts_with("net ") || l.starts_with("cap"));
     let net = if need_net { Some(start_net()) } else { None };
     for line in &ops {
         if line.trim().is_empty() {
